@@ -293,6 +293,7 @@ func checkC29(c evoCase) pbt.Result {
 			applied = append(applied, e.Kind)
 		}
 	}
+	pinTags(c.Old, newS) // an edit "only appends": the tag stays what it was, spelled explicitly as in the repository's samples
 	oldText := c.Old.Text(schemagen.Layout{})
 	newText := newS.Text(schemagen.Layout{Seed: c.Order, Level: 1})
 	if oldAst, err := parse(oldText); err != nil || compiles(oldAst) != nil {
